@@ -6,7 +6,8 @@ open Mpt Mpt.Cobs Mpt.Codec Mpt.CQ Mpt.Stream
 
 /-- driver state: implementation model (M) and spec bookkeeping (S) side by side -/
 structure St where
-  variant : Option Variant := none      -- framing of the encode side (`none` = raw)
+  variant : Option Variant := none      -- framing of the encode side (`none` = raw or command text)
+  cmd : Bool := false                   -- zero terminated command text (`mpt_encode_string` / `mpt_decode_command`)
   -- M: encode queue, unconsumed rest of the last push, the wire (bytes taken from the encode queue)
   eq : EncodeQueue := {}
   eqReady : Bool := false
@@ -58,7 +59,7 @@ def resName {α} : Res α → String
   | .ok _ => "ok" | .err e => e.name | .null => "null" | .oob => "OOB" | .fault => "FAULT"
 
 def codecOf (name : String) : Option (Option Variant) :=
-  if name = "raw" then some none else (Variant.ofName name).map some
+  if name = "raw" ∨ name = "command" then some none else (Variant.ofName name).map some
 
 /-- "key=<nat>" -/
 def keyNat (w key : String) : Option Nat :=
@@ -89,12 +90,14 @@ def eqLine (r : String) (q : EncodeQueue) (fdone : Nat) (ret : String) (alts : S
 
 /-- S for an operation that must not change the finished data -/
 def keepAlts (s : St) : String :=
-  match s.variant with
-  | none => "* ; *"
-  | some _ => s!"* ; fin={showB s.fin}"
+  if s.variant.isSome ∨ s.cmd then s!"* ; fin={showB s.fin}" else "* ; *"
 
 def doPush (s : St) (bytes : List Byte) : St × String :=
-  let alts := keepAlts s
+  -- command text must not accept a zero byte
+  let alts := match s.cmd, bytes.findIdx? (· == 0) with
+    | true, some z => " || ".intercalate (s!"refused n=0 ; fin={showB s.fin}" ::
+        (List.range (min z 64)).map fun k => s!"ok n={k + 1} ; fin={showB s.fin}")
+    | _, _ => keepAlts s
   match queuePush s.eq (some bytes) with
   | .ok o =>
     if o.ret < 0 then
@@ -106,10 +109,9 @@ def doPush (s : St) (bytes : List Byte) : St × String :=
   | x => (s, eqLine s!"model-{resName x}" s.eq s.fdone (resName x) alts)
 
 def termAlts (s : St) : String × List Byte :=
-  match s.variant with
+  match (if s.cmd then some (s.cur.map Prod.fst ++ [0]) else s.variant.map fun v => encB v [] false s.cur ++ [0]) with
   | none => ("* ; *", s.fin)
-  | some v =>
-    let f := encB v [] false s.cur ++ [0]
+  | some f =>
     let w := s.fin ++ f.drop s.early
     -- refusal is allowed exactly when the queue cannot hold the rest of the frame
     if w.length ≤ s.eq.ring.max then (s!"ok ; fin={showB w}", w)
@@ -135,13 +137,20 @@ def dqLine (r : String) (q : DecodeQueue) (ret : String) (alts : String) : Strin
 def availAlts (s : St) : String :=
   match s.avail with
   | some m => s!"* ; avail={showB m}"
-  | none => if s.dq.codec.isSome ∧ !s.scripted then "* ; avail=none" else "* ; *"
+  | none => if (s.dq.codec.isSome ∨ s.dq.command) ∧ !s.scripted then "* ; avail=none" else "* ; *"
 
 /-- the frames and messages a reference receiver sees in the bytes fed so far; `none` when a complete
     frame is malformed (outside this property) -/
 def specMsgs (s : St) : Option (List (List Byte) × List (List Byte)) :=
   match s.dq.codec with
-  | none => none
+  | none =>
+    if s.dq.command then
+      -- the command decoder puts its two byte header in front of the text
+      let frames := (splitFrames s.fed).1
+      if s.scripted then some (frames, frames.map fun f => cmdHeader ++ f.dropLast)
+      else if s.cmd then some (frames, (s.sentMsgs.take frames.length).map fun m => cmdHeader ++ m)
+      else none
+    else none
   | some v =>
     let frames := (splitFrames s.fed).1
     if s.scripted then
@@ -187,7 +196,7 @@ def mayAsk (s : St) (frames : List (List Byte)) : Bool :=
       let f := (frames[s.got]?).getD rest
       decide (s.dq.ring.max - s.dq.ring.len < pairBlocks v.maxlen f 0)
     else false
-  | none => false
+  | none => s.dq.command && decide (s.dq.ring.max - s.dq.ring.len < 2)     -- head room for the header
 
 def recvAlts (s : St) : String × Option (List Byte) :=
   match specMsgs s with
@@ -240,8 +249,67 @@ def streamPush (q : EncodeQueue) (data : Option (List Byte)) : Nat → Res (Enco
 
 def stLine (r : String) : String := s!"R {r} | C - | I - | S {r} ; *"
 
+/-- a C++ reader: advance while messages come; a refusal on a non-empty queue is answered with more storage -/
+def xdrain (q : DecodeQueue) : Nat → Nat → List String → Res (DecodeQueue × Bool × List String)
+  | 0, _, acc => .ok (q, true, acc)
+  | fuel + 1, grown, acc =>
+    match queueAdvance q with
+    | .ok (q1, ok) =>
+      if ok ∧ q1.st.msg.isSome then
+        if acc.length + 1 ≥ 4096 then .ok (q1, ok, acc ++ [msgText q1])
+        else xdrain q1 fuel 0 (acc ++ [msgText q1])
+      else if !ok ∧ q1.ring.len ≠ 0 ∧ grown < 4 then
+        match queueGrow q1 (q1.ring.max + 64) with
+        | .ok q2 => xdrain q2 fuel (grown + 1) acc
+        | .err e => .err e | .null => .null | .oob => .oob | .fault => .fault
+      else .ok (q1, ok, acc)
+    | .err e => .err e | .null => .null | .oob => .oob | .fault => .fault
+
 def step (s : St) (w : List String) : St × String :=
   match w with
+  | ["eq", "trim", n] =>
+    if !s.eqReady then (s, "bad-op") else
+    match (if n = "all" then some s.eq.st.done else n.toNat?) with
+    | some n =>
+      let alts :=
+        if s.variant.isNone ∧ !s.cmd then "* ; *"
+        else if n ≤ s.fin.length then s!"ok out={showB (s.fin.take n)} ; fin={showB (s.fin.drop n)}"
+        else s!"* ; fin=- || refused ; fin={showB s.fin}"
+      match queueTrim s.eq n with
+      | .ok (some (q, out)) =>
+        let fd := s.fdone - n
+        ({ s with eq := q, wire := s.wire ++ out, fin := s.fin.drop n, early := s.early + (n - s.fin.length), fdone := fd },
+         s!"R ok out={showB out} | C fin={showB (eqFin q fd)} | I {eqI "true" q fd} | S {alts}")
+      | .ok none => (s, eqLine "refused" s.eq s.fdone "false" alts)
+      | x => (s, eqLine s!"model-{resName x}" s.eq s.fdone (resName x) alts)
+    | none => (s, "bad-op")
+  | ["dq", "advance"] =>
+    if !s.dqReady then (s, "bad-op") else
+    let (alts0, next) := recvAlts s
+    -- the wrapper reports every refusal of `mpt_queue_recv` as `false`
+    let alts := (alts0.replace "ret=MissingData" "ret=refused").replace "ret=MissingBuffer" "ret=refused"
+    match queueAdvance s.dq with
+    | .ok (q, ok) =>
+      let have_ := ok ∧ q.st.msg.isSome
+      let rs := if !ok then "refused" else if have_ then "1" else "0"
+      let s' := { s with dq := q, got := if have_ then s.got + 1 else s.got, avail := if have_ then next else none }
+      let msg := if have_ then s!" msg={msgText q}" else ""
+      (s', s!"R ret={rs}{msg} guards=ok | C avail={msgText q} | I {dqI (if ok then "true" else "false") q} | S {alts}")
+    | x => (s, dqLine s!"model-{resName x}" s.dq (resName x) alts)
+  | ["dq", "xdrain"] =>
+    if !s.dqReady then (s, "bad-op") else
+    let alts := match specMsgs s with
+      | none => "* ; *"
+      | some (_, ms) =>
+        let rest := ms.drop s.got
+        let txt := if rest.isEmpty then "-" else ",".intercalate (rest.map showB)
+        s!"msgs={txt} n={rest.length} last=0 guards=ok ; avail=none || msgs={txt} n={rest.length} last=refused guards=ok ; avail=none"
+    match xdrain s.dq 100000 0 [] with
+    | .ok (q, ok, msgs) =>
+      let txt := if msgs.isEmpty then "-" else ",".intercalate msgs
+      let s' := { s with dq := q, got := s.got + msgs.length, avail := none }
+      (s', s!"R msgs={txt} n={msgs.length} last={if ok then "0" else "refused"} guards=ok | C avail={msgText q} | I {dqI (if ok then "true" else "false") q} | S {alts}")
+    | x => (s, dqLine s!"model-{resName x}" s.dq (resName x) alts)
   | ["st", "new", name] =>
     match Variant.ofName name with
     | some v =>
@@ -293,8 +361,9 @@ def step (s : St) (w : List String) : St × String :=
     match codecOf name, keyNat mx "max", keyNat off "off" with
     | some cv, some m, some o =>
       if o > m then (s, "bad-op") else
-      let q : EncodeQueue := { ring := { store := List.replicate m 0, len := 0, off := o }, codec := cv.map .cobs }
-      let s' : St := { s with variant := cv, eq := q, eqReady := true, pending := [], wire := [], wirepos := 0, fin := [], cur := [], sent := 0, fdone := 0, early := 0, sentMsgs := [], scripted := false }
+      let q : EncodeQueue := { ring := { store := List.replicate m 0, len := 0, off := o },
+                               codec := if name = "command" then some .command else cv.map .cobs }
+      let s' : St := { s with variant := cv, cmd := name = "command", eq := q, eqReady := true, pending := [], wire := [], wirepos := 0, fin := [], cur := [], sent := 0, fdone := 0, early := 0, sentMsgs := [], scripted := false }
       (s', eqLine "ok" q 0 "0" "ok ; fin=-")
     | _, _, _ => (s, "bad-op")
   | ["eq", "push", dat] =>
@@ -341,10 +410,9 @@ def step (s : St) (w : List String) : St × String :=
     match n.toNat? with
     | some n =>
       let k := min n (min s.eq.st.done s.eq.ring.len)
-      let alts := match s.variant with
-        | none => "* ; *"
-        | some _ =>
-          if k ≤ s.fin.length then s!"ok out={showB (s.fin.take k)} ; fin={showB (s.fin.drop k)}" else "* ; fin=-"
+      let alts :=
+        if s.variant.isNone ∧ !s.cmd then "* ; *"
+        else if k ≤ s.fin.length then s!"ok out={showB (s.fin.take k)} ; fin={showB (s.fin.drop k)}" else "* ; fin=-"
       match s.eq.ring.crop 0 k, queueTake s.eq n with
       | cr, .ok (q, out) =>
         let ret := match cr with | .ok (_, c) => toString c | .err e => toString e.code | _ => "?"
@@ -357,7 +425,8 @@ def step (s : St) (w : List String) : St × String :=
     match codecOf name, keyNat mx "max", keyNat off "off", keyNat al "align" with
     | some cv, some m, some o, some a =>
       if o > m ∨ a > 15 then (s, "bad-op") else
-      let q : DecodeQueue := { ring := { store := List.replicate m 0, len := 0, off := o }, codec := cv, base := a }
+      let q : DecodeQueue := { ring := { store := List.replicate m 0, len := 0, off := o }, codec := cv, base := a,
+                               command := name = "command" }
       let s' : St := { s with dq := q, dqReady := true, fed := [], got := 0, avail := none }
       (s', dqLine "ok" q "0" "* ; *")
     | _, _, _, _ => (s, "bad-op")
@@ -448,7 +517,7 @@ def step (s : St) (w : List String) : St × String :=
     if !s.dqReady then (s, "bad-op") else
     let alts := match s.avail with
       | some m => s!"msg={showB m} guards=ok ; avail={showB m}"
-      | none => if s.dq.codec.isSome ∧ !s.scripted then "msg=none guards=ok ; avail=none" else "* ; *"
+      | none => if (s.dq.codec.isSome ∨ s.dq.command) ∧ !s.scripted then "msg=none guards=ok ; avail=none" else "* ; *"
     (s, s!"R msg={msgText s.dq} guards=ok | C avail={msgText s.dq} | I {dqI "0" s.dq} | S {alts}")
   | ["dq", "peek", n] =>
     if !s.dqReady then (s, "bad-op") else
@@ -463,7 +532,7 @@ def step (s : St) (w : List String) : St × String :=
       | x => (s, dqLine s!"model-{resName x}" s.dq (resName x) (availAlts s))
     | none => (s, "bad-op")
   | ["sync"] =>
-    let alts := if s.variant.isNone then "* ; *" else s!"sent={s.sent} got={s.sent} left=0 ; *"
+    let alts := if s.variant.isNone ∧ !s.cmd then "* ; *" else s!"sent={s.sent} got={s.sent} left=0 ; *"
     (s, s!"R sent={s.sent} got={s.got} left={s.wire.length - s.wirepos} | C - | I - | S {alts}")
   | _ => (s, "bad-op")
 
